@@ -199,7 +199,42 @@ func (f *Frame) externDefault(in ssa.Instruction, callee *ssa.Function, guard st
 		return Val{T: fmt.Sprintf("(mk-iface 2 %s)", r), Typ: rt}
 	}
 	e.note(fmt.Sprintf("extern %s has no contract: result unconstrained, no heap effect assumed", name))
-	return f.freshResult(sanitize(name), rt, st)
+	r := f.freshResult(sanitize(name), rt, st)
+	f.notPkgErr(r, guard)
+	return r
+}
+
+func (f *Frame) notErrsOf(v Val, guard string, excluded func(g string) bool) {
+	if len(v.Tuple) > 0 {
+		for _, c := range v.Tuple {
+			f.notErrsOf(c, guard, excluded)
+		}
+		return
+	}
+	if v.Typ == nil || !isErrType(v.Typ) {
+		return
+	}
+	for _, n := range f.e.P.ErrGlobals {
+		if excluded(n) {
+			f.e.assume(guard, not(eq(v.T, "errG_"+sanitize(n))))
+		}
+	}
+}
+
+// notPkgErr: a function outside the package cannot return one of the package's own error values.
+func (f *Frame) notPkgErr(v Val, guard string) {
+	if len(v.Tuple) > 0 {
+		for _, c := range v.Tuple {
+			f.notPkgErr(c, guard)
+		}
+		return
+	}
+	if v.Typ == nil || !isErrType(v.Typ) {
+		return
+	}
+	for _, n := range f.e.P.ErrGlobals {
+		f.e.assume(guard, not(eq(v.T, "errG_"+sanitize(n))))
+	}
 }
 
 // ---------- modular call ----------
@@ -333,6 +368,12 @@ func (f *Frame) callContract(in ssa.Instruction, ct *Contract, callee *ssa.Funct
 	} else {
 		res = Val{T: "0"}
 	}
+	if callee != nil && callee.Pkg != e.P.Pkg && !(callee.Parent() != nil && callee.Parent().Pkg == e.P.Pkg) {
+		f.notPkgErr(res, guard)
+	} else if callee != nil {
+		// provenance: a callee that neither mentions a package error value nor can reach code that does cannot return it
+		f.notErrsOf(res, guard, func(g string) bool { return !e.P.mayReturnErr(callee, g) })
+	}
 	env2 := &specEnv{f: f, st: st, old: old, names: bind, callSite: true}
 	// ghost assignments of the callee at its return
 	for _, sc := range ct.Sets {
@@ -340,6 +381,11 @@ func (f *Frame) callContract(in ssa.Instruction, ct *Contract, callee *ssa.Funct
 		nv := f.specTerm(sc.Expr, env2)
 		cur := e.getHeap(st, "ghost_"+sc.Ghost, sortS)
 		prev := e.getHeap(old, "ghost_"+sc.Ghost, sortS)
+		if sc.Key != nil {
+			oldEnv := *env2
+			oldEnv.st = old
+			nv.T = fmt.Sprintf("(store %s %s %s)", prev, f.specTerm(sc.Key, &oldEnv).T, nv.T)
+		}
 		if sc.Cond != nil {
 			c := f.specBool(sc.Cond, env2)
 			e.assume(guard, eq(cur, ite(c, nv.T, prev)))
@@ -743,7 +789,9 @@ func (f *Frame) builtin(in ssa.Instruction, b *ssa.Builtin, c *ssa.CallCommon, g
 		case *types.Pointer:
 			return Val{T: fmt.Sprint(t.Elem().Underlying().(*types.Array).Len()), Typ: rt}
 		case *types.Map:
-			v := f.freshVal("maplen", rt)
+			n, _, _ := f.mapHeap(t)
+			ln := e.getHeap(st, n+"_n", "(Array Int Int)")
+			v := Val{T: e.define("maplen", "Int", fmt.Sprintf("(select %s %s)", ln, a.T)), Typ: rt}
 			e.assert(fmt.Sprintf("(>= %s 0)", v.T))
 			return v
 		}
@@ -761,6 +809,8 @@ func (f *Frame) builtin(in ssa.Instruction, b *ssa.Builtin, c *ssa.CallCommon, g
 		n, _, psort := f.mapHeap(mt)
 		pres := e.getHeap(st, n+"_p", psort)
 		e.setHeap(st, n+"_p", psort, fmt.Sprintf("(store %s %s (store (select %s %s) %s false))", pres, args[0].T, pres, args[0].T, args[1].T))
+		ln := e.getHeap(st, n+"_n", "(Array Int Int)")
+		e.setHeap(st, n+"_n", "(Array Int Int)", fmt.Sprintf("(store %s %s (ite (select (select %s %s) %s) (- (select %s %s) 1) (select %s %s)))", ln, args[0].T, pres, args[0].T, args[1].T, ln, args[0].T, ln, args[0].T))
 		return Val{T: "0"}
 	case "panic":
 		f.explicitPanic(in, guard, "builtin")
